@@ -37,11 +37,18 @@ def _run(args):
     import localcider.backend.wang_landau as W
 
     def f():
+        os.makedirs(outdir, exist_ok=True)
+        conv = float(np.exp(2.0 ** -m)) * (1 + sign * 1e-3)
+        if 'wlr' in os.path.basename(outdir):
+            # an earlier run has already written its logs into this directory: the logs of the measured run must describe
+            # the measured run alone (the code says they are overwritten on a restart)
+            install(Tape(seed + 1), S, W)
+            W._VERIF_TRACE = None
+            W.WangLandauMachine(seq, outdir, set(), nbins=nbins, binmin=bmin, binmax=bmax, flatchk=flatchk,
+                                flatcrit=crit, convergence=conv).run()
         tape = Tape(seed)
         install(tape, S, W)
         W._VERIF_TRACE = []
-        os.makedirs(outdir, exist_ok=True)
-        conv = float(np.exp(2.0 ** -m)) * (1 + sign * 1e-3)
         mach = W.WangLandauMachine(seq, outdir, set(), nbins=nbins, binmin=bmin, binmax=bmax, flatchk=flatchk,
                                    flatcrit=crit, convergence=conv)
         ret = mach.run()
@@ -190,6 +197,7 @@ def build(ctx):
     # a requested width that does not divide 1: the partition of [0,1] is then round(1/width) equal bins, not the requested ones
     jobs.append(('EEEEKKKKGGGG', 3, 0.0, 0.9, rng.choice([50, 100]), 0.2, 1, 1, rng.randrange(10 ** 9), os.path.join(ctx.work, 'wlw0')))
     jobs.append(('EKEKGGEKEKSSDR', 3, 0.1, 0.8, rng.choice([50, 100]), 0.1, 1, -1, rng.randrange(10 ** 9), os.path.join(ctx.work, 'wlw1')))
+    jobs.append(('EKGDRSEKNQ', 4, 0.0, 0.4, 50, 0.3, 1, 1, rng.randrange(10 ** 9), os.path.join(ctx.work, 'wlr0')))
     tmo = ctx.pick(90, 300)       # a run that has not converged by then is skipped (counted in notes.timeouts), not failed
     jobs = [j + (tmo,) for j in jobs]
     res = pmap(_run, jobs, chunk=1)
